@@ -171,7 +171,7 @@ fn in_place<T>(f: impl FnOnce() -> T) -> T {
 
 #[derive(Debug)]
 enum Evt {
-    Connected(u64),
+    Connected,
     Held,
     InlineEntered,
     Parked,
@@ -237,7 +237,7 @@ impl Shared {
             if let Some(r) = self.establishing.lock().unwrap().take() {
                 self.peers.lock().unwrap().insert(id, r.clone());
                 *r.peer_id.lock().unwrap() = Some(id);
-                let _ = r.ev_tx.send(Evt::Connected(id));
+                let _ = r.ev_tx.send(Evt::Connected);
                 rec = Some(r);
             }
         }
@@ -450,7 +450,6 @@ fn classify(b: &[u8]) -> String {
                 }
                 "o0".into()
             } else {
-                if std::env::var("LC_DEBUG").is_ok() { eprintln!("resp id={} ec={} body={}", f.h.id, f.h.ec, String::from_utf8_lossy(&f.body)); }
                 format!("r{}", f.h.id)
             }
         }
@@ -637,7 +636,7 @@ impl Group {
         }
         let mut ws = ws.unwrap();
         res.accepted = true;
-        if !wait_evt(ev_rx, |e| matches!(e, Evt::Connected(_))).await {
+        if !wait_evt(ev_rx, |e| matches!(e, Evt::Connected)).await {
             *self.sh.establishing.lock().unwrap() = None;
             drop(lock);
             res.problems.push(("lifecycle.connect.never".into(), "the first connect callback was not invoked for an accepted connection".into()));
@@ -682,8 +681,13 @@ impl Group {
                 }
             }
             "connecting" => {
-                if scen.cause != "cpanic" && !wait_evt(ev_rx, |e| matches!(e, Evt::Held)).await {
-                    return Err("connect-callback-not-held".into());
+                if scen.cause != "cpanic" {
+                    if !wait_evt(ev_rx, |e| matches!(e, Evt::Held)).await {
+                        return Err("connect-callback-not-held".into());
+                    }
+                    // a request pipelined while the connect callbacks are still running: its response must
+                    // come after every notify they queue
+                    ws.send(request(1, "/echo", &json!(1), false)).await.map_err(|e| format!("send-pipelined-echo {e}"))?;
                 }
             }
             _ => {}
